@@ -1263,7 +1263,7 @@ def r9(cx):
                 if not ok:
                     cx.violation(fn, 'name-filter-before-table:%s' % what.split('::')[-1], 'look_up answers "no such alias" from a test of the '
                                  'name itself (%s) without consulting the table, but the alias built-in does not put every definition behind '
-                                 'that test (`is_portable_alias_name` is enforced only under the `portable` option): an alias such as `..`, '
+                                 'that test (a test it applies only under an option, as `is_portable_alias_name` under `portable`, does not count): an alias such as `..`, '
                                  '`a.b` or `ls+` can be defined and listed but is never substituted, and a blank at the end of its value no '
                                  'longer makes the next word eligible' % what, loc=body.loc(t))
         # (3) no other way round the table (a test that the table is empty is the only reviewed shortcut)
